@@ -33,10 +33,22 @@ def main():
             if isinstance(rep, int) or a.replay:
                 return rep if isinstance(rep, int) else rep.finish()
         checks_token.run(rep, a.prop, a.tier, tokname)
+        if a.prop == "C06" and not a.replay:
+            from . import checks_restart
+
+            checks_restart.run_signals(rep, a.prop)
         return rep.finish()
     if a.prop in SCHED:
         from . import checks_sched
 
+        if a.prop in ("C04", "C07") and not a.replay:
+            rep = checks_sched.run(a.prop, a.tier, a.replay, finish=False)
+            if isinstance(rep, int):
+                return rep
+            from . import checks_restart
+
+            checks_restart.run_signals(rep, a.prop)
+            return rep.finish()
         return checks_sched.run(a.prop, a.tier, a.replay)
     if a.prop in ("C01", "C02", "C03", "C12", "C13", "C14", "C17", "C20"):
         from . import checks_config
